@@ -69,6 +69,55 @@ type scenario struct {
 type fileSpec struct {
 	Name    string
 	Content []byte
+	// Pattern, if set, gives the file's chunk list explicitly instead of letting the rolling checksum cut Content:
+	// one letter per part, each letter a 200 KiB slice of Content ("AABC": the first slice twice, then two more).
+	Pattern string
+}
+
+const patternChunk = 200 << 10
+
+// writeFile uploads the file's chunks and schema blob and returns the schema blob's ref.
+func writeFile(sto blobserver.StatReceiver, f fileSpec) (blob.Ref, error) {
+	ctx := context.Background()
+	if f.Pattern == "" {
+		return schema.WriteFileFromReader(ctx, sto, f.Name, bytes.NewReader(f.Content))
+	}
+	var parts []schema.BytesPart
+	var total int64
+	for _, c := range f.Pattern {
+		i := int(c - 'A')
+		data := f.Content[i*patternChunk : (i+1)*patternChunk]
+		br := blob.RefFromBytes(data)
+		if _, err := blobserver.ReceiveNoHash(ctx, sto, br, bytes.NewReader(data)); err != nil {
+			return blob.Ref{}, err
+		}
+		parts = append(parts, schema.BytesPart{Size: uint64(len(data)), BlobRef: br})
+		total += int64(len(data))
+	}
+	m := schema.NewFileMap(f.Name)
+	if err := m.PopulateParts(total, parts); err != nil {
+		return blob.Ref{}, err
+	}
+	js, err := m.JSON()
+	if err != nil {
+		return blob.Ref{}, err
+	}
+	br := blob.RefFromString(js)
+	_, err = blobserver.ReceiveNoHash(ctx, sto, br, strings.NewReader(js))
+	return br, err
+}
+
+// fileBytes is what reading the file back must give.
+func fileBytes(f fileSpec) []byte {
+	if f.Pattern == "" {
+		return f.Content
+	}
+	var out []byte
+	for _, c := range f.Pattern {
+		i := int(c - 'A')
+		out = append(out, f.Content[i*patternChunk:(i+1)*patternChunk]...)
+	}
+	return out
 }
 
 type recorder struct {
@@ -152,17 +201,20 @@ func main() {
 	half := content(rng, 330<<10)
 	same := content(rng, 560<<10)
 	scs := []scenario{
-		{Name: "single-zip", Files: []fileSpec{{"a.bin", content(rng, 600<<10)}}},
-		{Name: "multi-zip", Files: []fileSpec{{"b.bin", content(rng, 900<<10)}}, MaxZip: 400 << 10},
-		{Name: "repeated-chunks", Files: []fileSpec{{"c.bin", append(append([]byte{}, half...), half...)}}, Shuffle: true},
-		{Name: "identical-files", Files: []fileSpec{{"d1.bin", same}, {"d2.bin", same}}},
+		{Name: "single-zip", Files: []fileSpec{{Name: "a.bin", Content: content(rng, 600<<10)}}},
+		{Name: "multi-zip", Files: []fileSpec{{Name: "b.bin", Content: content(rng, 900<<10)}}, MaxZip: 400 << 10},
+		{Name: "repeated-chunks", Files: []fileSpec{{Name: "c.bin", Content: append(append([]byte{}, half...), half...)}}, Shuffle: true},
+		// the same run of chunks twice and THEN new content in the same zip (chunk list A.. A.. B..): offsets of what
+		// follows a repeated chunk
+		{Name: "repeat-then-new", Files: []fileSpec{{Name: "r.bin", Content: content(rng, 3*patternChunk), Pattern: "AABC"}}},
+		{Name: "identical-files", Files: []fileSpec{{Name: "d1.bin", Content: same}, {Name: "d2.bin", Content: same}}},
 	}
 	if *thorough {
 		scs = append(scs,
-			scenario{Name: "multi-zip-3", Files: []fileSpec{{"e.bin", content(rng, 1500<<10)}}, MaxZip: 450 << 10, Shuffle: true},
-			scenario{Name: "threshold", Files: []fileSpec{{"f.bin", content(rng, 512<<10)}}},
-			scenario{Name: "below-threshold", Files: []fileSpec{{"g.bin", content(rng, 512<<10-1)}}},
-			scenario{Name: "two-files-multi", Files: []fileSpec{{"h1.bin", content(rng, 700<<10)}, {"h2.bin", content(rng, 650<<10)}}, MaxZip: 500 << 10},
+			scenario{Name: "multi-zip-3", Files: []fileSpec{{Name: "e.bin", Content: content(rng, 1500<<10)}}, MaxZip: 450 << 10, Shuffle: true},
+			scenario{Name: "threshold", Files: []fileSpec{{Name: "f.bin", Content: content(rng, 512<<10)}}},
+			scenario{Name: "below-threshold", Files: []fileSpec{{Name: "g.bin", Content: content(rng, 512<<10-1)}}},
+			scenario{Name: "two-files-multi", Files: []fileSpec{{Name: "h1.bin", Content: content(rng, 700<<10)}, {Name: "h2.bin", Content: content(rng, 650<<10)}}, MaxZip: 500 << 10},
 		)
 	}
 	for _, sc := range scs {
@@ -383,12 +435,12 @@ func runScenario(sc *scenario, rng *rand.Rand, scratch string) error {
 	var fileRefs []blob.Ref
 	var contents [][]byte
 	for _, f := range sc.Files {
-		fr, err := schema.WriteFileFromReader(context.Background(), rec, f.Name, bytes.NewReader(f.Content))
+		fr, err := writeFile(rec, f)
 		if err != nil {
 			return err
 		}
 		fileRefs = append(fileRefs, fr)
-		contents = append(contents, f.Content)
+		contents = append(contents, fileBytes(f))
 	}
 	// the writer's upload order depends on goroutine scheduling: use the order of the refs
 	sort.Slice(rec.order, func(i, j int) bool { return rec.order[i].String() < rec.order[j].String() })
@@ -405,7 +457,7 @@ func runScenario(sc *scenario, rng *rand.Rand, scratch string) error {
 	var perFile [][]blob.Ref
 	for i, f := range sc.Files {
 		r1 := &recorder{data: map[blob.Ref][]byte{}}
-		if _, err := schema.WriteFileFromReader(context.Background(), r1, f.Name, bytes.NewReader(f.Content)); err != nil {
+		if _, err := writeFile(r1, f); err != nil {
 			return err
 		}
 		var need []int
